@@ -2,6 +2,7 @@ import OpnVerif.Model.Settings
 import OpnVerif.Model.Wopn
 import OpnVerif.Model.Seq
 import OpnVerif.Model.Mus
+import OpnVerif.Model.Xmi
 import Driver.Util
 import Driver.Seq
 /-! driver of the `settings` component: the configuration model behind the op names of the `api` harness component -/
@@ -66,7 +67,15 @@ def step' (s : S) (ws : List String) : S × String :=
     match hexBytes? hex with
     | some b =>
       if !s.banksLoaded then fin (step s .musicRejected) else
-      if b.length ≥ 14 && b.take 4 == [70, 79, 82, 77] && (b.drop 8).take 4 == [88, 68, 73, 82] then (s, "ret=?") else
+      if b.length ≥ 14 && b.take 4 == [70, 79, 82, 77] && (b.drop 8).take 4 == [88, 68, 73, 82] then
+        match Xmi.convert b with
+        | none => fin (step s .musicRejected)
+        | some songs =>
+          match Seq.parseSMF {} .xmidi (songs.headD []) with
+          | .ok (.ok _) => fin (step s .musicAccepted)
+          | .ok .rejected => fin (step s .musicRejected)
+          | .error e => (s, toString e)
+      else
       let r : Except Fault Seq.LoadRes :=
         if b.length ≥ 14 && b.take 4 == [77, 85, 83, 0x1A] then
           match Mus.convert b with
